@@ -7,6 +7,7 @@ From FRP Require Import Model.Frame Model.MsgObj Proofs.FrameProofs Proofs.MsgOb
 From FRP Require Import Model.FrameSys Proofs.FrameSysProofs Model.FrameSysLogin Proofs.FrameSysLoginProofs.
 From FRP Require Import Model.MsgRec Proofs.MsgRecProofs gen.GenMsgRec gen.GenMsgRecThms.
 From FRP Require Import Model.Datagram Model.DatagramTypes Proofs.DatagramProofs gen.GenDgram.
+From FRP Require Import Proofs.ReadSitesCheck gen.GenReadSites.
 Open Scope Z_scope.
 
 Definition today_registry := registry type_consts type_map.
@@ -303,6 +304,20 @@ Theorem C17_datagram_source_guarded :
      0 <= lo /\ exists k, In k guards /\ lo <= k /\ (hi = -2 \/ (lo <= hi /\ hi <= k))).
 Proof. exact (dg_source_ok_sound dg_decode_shape dg_encode_shape dg_slices (eq_refl true <: dg_source_ok dg_decode_shape dg_encode_shape dg_slices = true)). Qed.
 Print Assumptions C17_datagram_source_guarded.
+
+(* Reflective, over today's client/, server/, pkg/ (gen/GenReadSites.v): "decoding never reads past the frame"
+   (C17_decode_no_overread) carried to the CALL SITES: no call of msg.ReadMsg / ReadMsgInto is given a
+   bufio reader (it would take the bytes behind the frame out of a stream that continues on the raw
+   connection); handleConnection's and readLoop's sites are in the table; and the UDP / datagram codecs
+   contain no decode-into-a-caller-supplied-buffer call (base64 Decode/Encode, copy), whose size
+   precondition the totality of the codec would depend on *)
+Theorem C17_read_sites_unbuffered :
+  (forall s, In s read_sites -> site_origin s <> "bufio"%string) /\
+  (exists s, In s read_sites /\ site_file s = "server/service.go"%string /\ site_fn s = "handleConnection"%string) /\
+  (exists s, In s read_sites /\ site_file s = "pkg/msg/handler.go"%string /\ site_fn s = "readLoop"%string) /\
+  dst_calls = [].
+Proof. exact (read_sites_ok_sound read_sites dst_calls (eq_refl true <: read_sites_ok read_sites dst_calls = true)). Qed.
+Print Assumptions C17_read_sites_unbuffered.
 
 (** * Message level: one round-trip theorem per registered message type
    (records, conversions, type bytes and encode_T / decode_T are regenerated from pkg/msg/msg.go on
